@@ -7,13 +7,13 @@ import (
 // MonFlags selects which history variables a run tracks. Untracked ones stay empty, so runs whose oracles
 // need no history merge more states.
 type MonFlags struct {
-	Vol bool // accepted responses per (consumer, service, provider)            — C07
-	Req bool // per live request: provider, issue height, timeout at issue, answered — C08
-	Ctx bool // per live context: batch start heights, steadiness, largest total    — C10
-	CB  bool // response callbacks seen per (context, batch)                       — C12
-	Kill bool // contexts for which a kill succeeded                                — C16
+	Vol     bool // accepted responses per (consumer, service, provider)            — C07
+	Req     bool // per live request: provider, issue height, timeout at issue, answered — C08
+	Ctx     bool // per live context: batch start heights, steadiness, largest total    — C10
+	CB      bool // response callbacks seen per (context, batch)                       — C12
+	Kill    bool // contexts for which a kill succeeded                                — C16
 	Restart bool // contexts the owning module started again from inside a state callback — C11 (re-entrant run)
-	Dis  bool // block time at which each binding last became unavailable            — C03
+	Dis     bool // block time at which each binding last became unavailable            — C03
 }
 
 type ReqMon struct {
@@ -24,26 +24,26 @@ type ReqMon struct {
 }
 
 type CtxMon struct {
-	Created   int64 `json:"c"`            // height of the block containing the call
-	Batches   int64 `json:"n"`            // counter advances observed
-	LastStart int64 `json:"s,omitempty"`  // height whose end-of-block advanced the counter last
-	LastExp   int64 `json:"x,omitempty"`  // expiry height of that batch (LastStart + timeout in force then)
-	Steady    bool  `json:"y,omitempty"`  // since LastStart: always running, timeout and frequency unchanged
+	Created   int64  `json:"c"`           // height of the block containing the call
+	Batches   int64  `json:"n"`           // counter advances observed
+	LastStart int64  `json:"s,omitempty"` // height whose end-of-block advanced the counter last
+	LastExp   int64  `json:"x,omitempty"` // expiry height of that batch (LastStart + timeout in force then)
+	Steady    bool   `json:"y,omitempty"` // since LastStart: always running, timeout and frequency unchanged
 	Freq      uint64 `json:"f,omitempty"` // frequency in force at LastStart
-	Timeout   int64 `json:"t,omitempty"`  // timeout in force at LastStart
-	MaxTotal  int64 `json:"m"`            // largest total ever in force
-	Inf       bool  `json:"i,omitempty"`  // a negative (unbounded) total was in force at some point
+	Timeout   int64  `json:"t,omitempty"` // timeout in force at LastStart
+	MaxTotal  int64  `json:"m"`           // largest total ever in force
+	Inf       bool   `json:"i,omitempty"` // a negative (unbounded) total was in force at some point
 }
 
 // Mon holds the history variables. It is part of the state identity.
 type Mon struct {
-	Vol map[string]uint64  `json:"vol,omitempty"`
-	Req map[string]ReqMon  `json:"req,omitempty"`
-	Ctx map[string]CtxMon  `json:"ctx,omitempty"`
-	CB  map[string]int     `json:"cb,omitempty"`
-	Killed map[string]bool `json:"killed,omitempty"`
-	Dis    map[string]int64 `json:"dis,omitempty"`
-	Restarted map[string]bool `json:"restarted,omitempty"`
+	Vol       map[string]uint64 `json:"vol,omitempty"`
+	Req       map[string]ReqMon `json:"req,omitempty"`
+	Ctx       map[string]CtxMon `json:"ctx,omitempty"`
+	CB        map[string]int    `json:"cb,omitempty"`
+	Killed    map[string]bool   `json:"killed,omitempty"`
+	Dis       map[string]int64  `json:"dis,omitempty"`
+	Restarted map[string]bool   `json:"restarted,omitempty"`
 }
 
 func NewMon() *Mon { return &Mon{} }
